@@ -342,15 +342,18 @@ func (r *runningRoutine) execute(
 				} else if r.r.routine == r {
 					dur := r.r.retryBo.NextBackOff()
 					if dur != backoff.Stop {
-						r.deferRetry = time.AfterFunc(dur, func() {
+						var timer *time.Timer
+						timer = time.AfterFunc(dur, func() {
 							verifhook.Point("routine.timer.retry", r)
 							r.r.bcast.HoldLock(func(broadcast func(), getWaitCh func() <-chan struct{}) {
-								if r.r.ctx != nil && r.r.routine == r && r.exited {
+								// a timer that fired before it was stopped must not restart anything
+								if r.deferRetry == timer && r.r.ctx != nil && r.r.routine == r && r.exited {
 									r.start(r.r.ctx, r.exitedCh, true)
 								}
 								broadcast()
 							})
 						})
+						r.deferRetry = timer
 					}
 				}
 			}
